@@ -31,7 +31,7 @@ ASSUMPTIONS = [
     "the rest of the grammar (how a whole query is split) is outside the claim (C02)",
     "the translation itself is validated each run by pushing the repository's own test tokens and all strings of length <=2 over the "
     "structural alphabet through both the real functions and the encoding (disagreement = inconclusive: translator)",
-    "E1 bound: every Unicode scalar |s|<=1 (thorough: |s|<=2 over class representatives); token lists of <=2 commands x <=3 tokens",
+    "E1 additionally runs the real `_parameter_parse_action` on the tokens the rule produces for the encoded text (tokenisation by a 15-line harness function using the live entity outputs); E1 bound: every Unicode scalar |s|<=1 (thorough: |s|<=2 over class representatives); token lists of <=2 commands x <=3 tokens",
     "unpaired surrogates are not scalars (quote raises) and are outside the claim; longer free strings are outside the claim",
 ]
 EXPLANATION = "single-query SMT encoding of the codec regenerated from source + CrossHair for Unicode and the list wrappers"
@@ -356,6 +356,40 @@ def _safe_text(e):
     return ok
 
 
+def _entity_table():
+    """outputs of the REAL parse actions of every two-character '~x' entity of the live grammar"""
+    t = {}
+    for c in "~_I/.HhfP0123456789":
+        try:
+            r = lp.entities.parseString("~" + c, True)
+            t["~" + c] = "".join(r)
+        except Exception:
+            pass
+    return t
+
+
+ENTITY_OUT = _entity_table()
+
+
+def rule_tokens(e):
+    """tokens the `parameter` rule hands to its parse action for an encoded text (text characters, entity outputs, %XX pieces)"""
+    toks = []
+    i = 0
+    n = len(e)
+    while i < n:
+        c = e[i]
+        if c == "~" and i + 1 < n and e[i:i + 2] in ENTITY_OUT:
+            toks.append(ENTITY_OUT[e[i:i + 2]])
+            i += 2
+        elif c == "%" and i + 2 < n + 0 and i + 2 <= n - 1:
+            toks.append(e[i:i + 3])
+            i += 3
+        else:
+            toks.append(c)
+            i += 1
+    return toks
+
+
 CLASSES = [(0, 0x7F), (0x80, 0x7FF), (0x800, 0xD7FF), (0xE000, 0xFFFF), (0x10000, 0x10FFFF)]
 
 
@@ -367,7 +401,10 @@ def ob_unicode(s: str) -> bool:
     """
     def body():
         e = encode_token(s)
-        return _safe_text(e) and decode_token(e) == s and StringActionParameter(s).encode() == e
+        ok = _safe_text(e) and decode_token(e) == s and StringActionParameter(s).encode() == e
+        # the grammar's REAL parse action of the parameter rule, applied to the tokens the rule produces for e
+        par = lp._parameter_parse_action("", 0, rule_tokens(e))
+        return ok and par.string == s
     return check(_with_models(body))
 
 
